@@ -406,6 +406,9 @@ func (m *ldbManager) Pop() error {
 		return err
 	}
 
+	// cached undo overlays were built from the history that has just been rewound
+	m.l1Cache.Purge()
+	m.l2Cache.Purge()
 	return nil
 }
 func (m *ldbManager) Stop() error {
